@@ -297,6 +297,8 @@ def case_replay(ctx, spec):
     add = {"tx": tx, "bidoffer": {}}
     if src.get("bidoffer") is not None:
         add["bidoffer"] = interp.mk_frame(src["dates"], src["bidoffer"])
+    elif spec.get("replay_quotes_bps"):
+        add["bidoffer"] = data.fillna(0.0) * spec["replay_quotes_bps"] / 1e4
     rb = bt.Backtest(rs, data, integer_positions=False, initial_capital=src.get("initial_capital", 1e6), additional_data=add, progress_bar=False)
     try:
         rb.run()
@@ -313,7 +315,7 @@ def case_replay(ctx, spec):
     if not np.allclose(V, RV, rtol=1e-9, atol=1e-6):
         i = int(np.argmax(~np.isclose(V, RV, rtol=1e-9, atol=1e-6)))
         raise Violation("replay: root value on row %d is %r, source run had %r (difference %r)%s" % (i, RV[i], V[i], RV[i] - V[i], " [same-date trades netting to zero in one ticker paid a spread]" if netted else ""), signature="c18:replay-values" + (":netted" if netted else ""))
-    labs = gen.spec_labels(src) + (["netted_same_date_trades"] if netted else []) + (["two_step_stack"] if spec.get("two_step") else [])
+    labs = gen.spec_labels(src) + (["netted_same_date_trades"] if netted else []) + (["two_step_stack"] if spec.get("two_step") else []) + (["replayed_against_market_quotes"] if (src.get("bidoffer") is None and spec.get("replay_quotes_bps")) else [])
     return {"nontrivial": len(tx) >= 2 and (bool(src.get("bidoffer")) or "nested" in labs), "labels": labs}
 
 
@@ -327,6 +329,8 @@ def replay_spec(draw):
             t0 = draw(st.sampled_from(tick))
             spec["tree"]["algos"] = spec["tree"]["algos"] + [["WeighSpecified", {"weights": {t0: draw(st.sampled_from([0.0, 0.0, 0.3]))}}], ["Rebalance", {}]]
             spec["two_step"] = True
+    # the blotter of a run made without spreads may be replayed in a set-up that carries market quotes: a listed price is the price paid
+    spec["replay_quotes_bps"] = draw(st.sampled_from([None, None, 20, 100]))
     return spec
 
 
